@@ -558,6 +558,6 @@ pub fn run(ctx: &mut Ctx) {
         "UnsignedVarint(None) has no configured limit: announced lengths are clamped to 1 MiB for it (an unbounded announced length aborts the allocator; observation, not a finding of this property)".into(),
     ];
     let t = ctx.tier;
-    ctx.campaign("roundtrip", CampaignCfg::new(t.pick(2_500, 60_000)).shards(16).shrink_iters(400), strategy, run_case);
-    ctx.campaign("raw-injection", CampaignCfg::new(t.pick(4_000, 100_000)).shards(16), raw_strategy, run_raw);
+    ctx.campaign("roundtrip", CampaignCfg::new(t.pick(2_500, 480_000)).shards(16).shrink_iters(400), strategy, run_case);
+    ctx.campaign("raw-injection", CampaignCfg::new(t.pick(4_000, 800_000)).shards(16), raw_strategy, run_raw);
 }
